@@ -32,7 +32,7 @@ from typing import Any, Callable, Iterable, Optional
 VERIF = os.path.dirname(os.path.dirname(os.path.abspath(__file__)))
 REPO = os.environ.get("VERIF_REPO", "/repo")
 SRC = os.path.join(REPO, "src")
-COQ = os.path.join(VERIF, "coq")
+COQ = os.environ.get("VERIF_COQ", os.path.join(VERIF, "coq"))  # seedtest.sh points this at a private copy
 WORK = os.environ.get("VERIF_WORK", os.path.join(VERIF, ".work"))
 NPROC = int(os.environ.get("VERIF_JOBS", "8"))
 
